@@ -1274,6 +1274,150 @@ theorem C17_boundary_loop_terminates {m : Map Val} (h : WF 3 m) (hst : 8 < m.a.s
     (∃ m', run (classifyLoops m.n (m.n + 1) cid) m = (.err errUnsupportedGeometry, m')) :=
   classifyLoops_terminates _ cid m ⟨h, hst⟩ (by have := cntE_le m; omega)
 
+/-! ## the colouring loop terminates; `classify_capture` is total -/
+
+theorem run_eid' {m : Map Val} (h : WF 3 m) {d : Nat} (hd : d < m.n) :
+    run (edgeId2 (X := Val) d) m = (.ok (if m.β 2 d = 0 then d else min (m.β 2 d) d), m) := by
+  unfold edgeId2
+  simp only [Prog.bind_eq, Prog.pure_eq, run_rB, okb h (by omega : 2 < 3) hd, if_true]
+  by_cases hb : m.β 2 d = 0
+  · simp only [hb, if_true, run_ret]
+  · simp only [hb, if_false, run_ret]
+
+theorem eid_lt {m : Map Val} (h : WF 3 m) {d : Nat} (hd : d < m.n) :
+    (if m.β 2 d = 0 then d else min (m.β 2 d) d) < m.n := by
+  have := h.range 2 (by omega) d hd
+  split
+  · exact hd
+  · omega
+
+theorem run_fid' {m : Map Val} (h : WF 3 m) {x : Nat} (hx : x < m.n) :
+    run (faceId2 (X := Val) m.n x) m = (.ok (cellId m .face x), m) := by
+  by_cases h0 : x = 0
+  · subst h0
+    unfold faceId2
+    have := run_orbit2_zero h (pol := .face) trivial
+    unfold orbit2 at this
+    simp only [Prog.bind_eq]
+    rw [run_bind, this, cellId_zero h (pol := .face) trivial]
+    simp [listMin]
+  · exact (C03_faceId2_min h h0 hx).1
+
+theorem fid_lt {m : Map Val} (h : WF 3 m) {x : Nat} (hx : x < m.n) : cellId m .face x < m.n := by
+  by_cases h0 : x = 0
+  · subst h0; rw [cellId_zero h (pol := .face) trivial]; exact hx
+  · exact (cellId_idem h (pol := .face) trivial h0 hx).2.1
+
+/-- queue and `marked` set of the colouring: existing darts, no duplicate in `marked` -/
+structure QInv (n : Nat) (q mk : List Nat) : Prop where
+  qlt : ∀ x, x ∈ q → x < n
+  mlt : ∀ x, x ∈ mk → x < n
+  nodup : mk.Nodup
+
+theorem QInv.len {n : Nat} {q mk : List Nat} (h : QInv n q mk) : mk.length ≤ n := by
+  have h2 : mk ⊆ List.range n := fun x hx => List.mem_range.2 (h.mlt x hx)
+  have := h.nodup.length_le_of_subset h2
+  simpa using this
+
+theorem QInv.push {n : Nat} {q mk : List Nat} (h : QInv n q mk) {x : Nat} (hx : x < n) (hn : x ∉ mk) :
+    QInv n (q ++ [x]) (mk ++ [x]) := by
+  refine ⟨?_, ?_, ?_⟩
+  · intro y hy
+    rcases List.mem_append.1 hy with hy | hy
+    · exact h.qlt y hy
+    · rw [List.mem_singleton.1 hy]; exact hx
+  · intro y hy
+    rcases List.mem_append.1 hy with hy | hy
+    · exact h.mlt y hy
+    · rw [List.mem_singleton.1 hy]; exact hx
+  · rw [List.nodup_append]
+    refine ⟨h.nodup, List.nodup_singleton x, ?_⟩
+    intro a ha b hb e
+    rw [List.mem_singleton.1 hb] at e
+    exact hn (e ▸ ha)
+
+/-- the body of the colouring over the darts of one face always succeeds; it only appends the same new
+    faces to the queue and to `marked` -/
+theorem colourDarts_total (sid : Nat) : ∀ (ds q mk : List Nat) (m : Map Val), Ok9 m →
+    (∀ d, d ∈ ds → d < m.n) → QInv m.n q mk →
+    ∃ add m', run (colourDarts m.n sid ds q mk) m = (.ok (q ++ add, mk ++ add), m') ∧ Grow m m' ∧
+      QInv m.n (q ++ add) (mk ++ add) := by
+  intro ds
+  induction ds with
+  | nil =>
+      intro q mk m _ _ hq
+      exact ⟨[], m, by simp [colourDarts], Grow.refl m, by simpa using hq⟩
+  | cons d ds ih =>
+      intro q mk m h hds hq
+      have hd := hds d List.mem_cons_self
+      have hds' : ∀ x, x ∈ ds → x < m.n := fun x hx => hds x (List.mem_cons_of_mem _ hx)
+      have helt := eid_lt h.wf hd
+      unfold colourDarts
+      simp only [Prog.bind_eq]
+      rw [run_bind, run_eid' h.wf hd]
+      simp only [run_rA, h.okA (by decide : sEA ≤ 8) helt, if_true]
+      by_cases ha : (m.att sEA (if m.β 2 d = 0 then d else min (m.β 2 d) d)).isSome = true
+      · simp only [ha, if_true]
+        exact ih q mk m h hds' hq
+      · simp only [ha, if_false, Bool.false_eq_true]
+        rw [run_bind, run_eid' h.wf hd]
+        simp only [run_wA, h.okA (by decide : sEA ≤ 8) helt, if_true]
+        -- after the edge write
+        have g1 : Grow m (m.setA sEA (if m.β 2 d = 0 then d else min (m.β 2 d) d) (some (vSurface sid))) :=
+          Grow.setA _ _ _ _
+        generalize hm1 : m.setA sEA (if m.β 2 d = 0 then d else min (m.β 2 d) d) (some (vSurface sid)) = m1 at g1
+        have h1 := h.sameTopo g1.topo
+        have hn1 : m1.n = m.n := g1.topo.n
+        have hd1 : d < m1.n := by rw [hn1]; exact hd
+        rw [← hn1]
+        rw [run_bind, run_vid' h1.wf hd1]
+        have hv1 := vid_lt h1.wf hd1
+        simp only [run_rA, h1.okA (by decide : sVA ≤ 8) hv1, if_true]
+        -- the optional vertex write leads to a map `m2`
+        have key : ∀ (m2 : Map Val), Grow m1 m2 →
+            ∃ add m', run (Prog.bind (rB 2 d) fun b2 => Prog.bind (faceId2 m1.n b2) fun nf =>
+                if mk.contains nf = true then colourDarts m1.n sid ds q mk
+                else colourDarts m1.n sid ds (q ++ [nf]) (mk ++ [nf])) m2
+              = (.ok (q ++ add, mk ++ add), m') ∧ Grow m2 m' ∧ QInv m1.n (q ++ add) (mk ++ add) := by
+          intro m2 g2
+          have h2 := h1.sameTopo g2.topo
+          have hn2 : m2.n = m1.n := g2.topo.n
+          have hd2 : d < m2.n := by rw [hn2]; exact hd1
+          have hb2 : m2.β 2 d < m2.n := h2.wf.range 2 (by omega) d hd2
+          simp only [run_rB, okb h2.wf (by omega : 2 < 3) hd2, if_true]
+          rw [← hn2, run_bind, run_fid' h2.wf hb2]
+          simp only
+          have hflt := fid_lt h2.wf hb2
+          have hds2 : ∀ x, x ∈ ds → x < m2.n := fun x hx => by rw [hn2, hn1]; exact hds' x hx
+          by_cases hc : mk.contains (cellId m2 .face (m2.β 2 d)) = true
+          · simp only [hc, if_true]
+            have := ih q mk m2 h2 hds2 (by rw [hn2, hn1]; exact hq)
+            exact this
+          · simp only [hc, if_false, Bool.false_eq_true]
+            have hnm : cellId m2 .face (m2.β 2 d) ∉ mk := by
+              intro hh; exact hc (by simpa using hh)
+            have hq2 : QInv m2.n (q ++ [cellId m2 .face (m2.β 2 d)]) (mk ++ [cellId m2 .face (m2.β 2 d)]) := by
+              have hq' : QInv m2.n q mk := by rw [hn2, hn1]; exact hq
+              exact hq'.push hflt hnm
+            obtain ⟨add, m', hr, g, hqi⟩ := ih _ _ m2 h2 hds2 hq2
+            refine ⟨cellId m2 .face (m2.β 2 d) :: add, m', ?_, g, ?_⟩
+            · rw [hr]; simp [List.append_assoc]
+            · simpa [List.append_assoc] using hqi
+        by_cases hav : (m1.att sVA (cellId m1 .vertex d)).isNone = true
+        · simp only [hav, if_true]
+          rw [run_bind, run_bind, run_vid' h1.wf hd1]
+          simp only [run_wA, h1.okA (by decide : sVA ≤ 8) hv1, if_true]
+          have g2 : Grow m1 (m1.setA sVA (cellId m1 .vertex d) (some (vSurface sid))) := Grow.setA _ _ _ _
+          obtain ⟨add, m', hr, g, hqi⟩ := key _ g2
+          refine ⟨add, m', ?_, g1.trans (g2.trans g), by rw [← hn1]; exact hqi⟩
+          rw [← hr]
+        · simp only [hav, if_false, Bool.false_eq_true, Prog.pure_eq]
+          rw [run_bind]
+          simp only [run_ret]
+          obtain ⟨add, m', hr, g, hqi⟩ := key m1 (Grow.refl m1)
+          refine ⟨add, m', ?_, g1.trans g, by rw [← hn1]; exact hqi⟩
+          rw [← hr]
+
 /-! ## the assertions are not redundant on arbitrary well-formed maps -/
 
 /-- one edge 1|2 closed on itself (`β1 = β2 = (1 2)`): a face with a dangling edge, two vertices of
